@@ -147,6 +147,8 @@ Fixpoint assocN {A} (k : N) (l : list (N * A)) : option A :=
 (** [current_after f]: the value `LevelFilter::current()` returns after `set_max(f)`;
     [None] means the `unreachable` arm was taken. *)
 Definition current_after (f : option lv) : option (option lv) := assocN (gen_set_max f) gen_current_arms.
+(** `current()` before any `set_max` (the static's initialiser) *)
+Definition current_initial : option (option lv) := assocN gen_max_initial gen_current_arms.
 
 (** * Text *)
 Fixpoint list_eqb (a b : list N) : bool :=
